@@ -219,7 +219,7 @@ def _eval_key_case(case):
             o.enc(curve.encode() + b'esk', salt + box)
         return K.line(['sk', curve, K.hx(pub), K.hx(sk), K.hx(pw_bytes) if pw_bytes is not None else 'none', '1' if ed_seed else '0', K.hx(salt)], o)
 
-    def check_roundtrip(what, text, passphrase_bytes):
+    def check_roundtrip(what, text, passphrase_bytes, passphrase_given=None):
         imp = real_import(text, passphrase_bytes)
         rec('import', {'what': what}, import_line(text, passphrase_bytes), imp)
         if imp != f'ok {curve} {K.hx(pub)} {K.hx(sk)}':
@@ -232,6 +232,13 @@ def _eval_key_case(case):
             pass
         if k2 is None or (k2.public_point, k2.secret_exponent, k2.curve) != (pub, sk, curve.encode()):
             viol.append((f'export-import-differs:{curve}:{what}', f'{text} given as bytes does not import to the same key', {**base, 'what': what, 'text': text}))
+        if isinstance(passphrase_given, str):
+            # the passphrase in the form the caller exported with (str): both sides must derive the same key from it
+            imp_s = real_import(text, passphrase_given)
+            if imp_s != f'ok {curve} {K.hx(pub)} {K.hx(sk)}':
+                viol.append((f'export-import-differs:{curve}:{what}:str-passphrase',
+                             f'secret_key(passphrase={passphrase_given!r}) -> {text} -> from_encoded_key(passphrase={passphrase_given!r}) gives {imp_s[:80]}',
+                             {**base, 'what': what, 'text': text, 'passphrase_str': passphrase_given}))
 
     # plain
     text, res = export(None, True, None)
@@ -279,7 +286,7 @@ def _eval_key_case(case):
         if plain != material:
             viol.append((f'encrypted-export-undecryptable:{curve}', f'{text} does not decrypt (PBKDF2-SHA512 32768 / XSalsa20-Poly1305, zero nonce) to the secret with the passphrase',
                          {**base, 'text': text, 'passphrase': pw_bytes.hex()}))
-        check_roundtrip('encrypted', text, pw_bytes)
+        check_roundtrip('encrypted', text, pw_bytes, pw)
         wrong = pw_bytes + b'!'
         impw = real_import(text, wrong)
         rec('import', {'what': 'wrong-passphrase'}, import_line(text, wrong), impw)
@@ -412,8 +419,13 @@ def eval_mnemonic_case(case):
 
 
 def random_passphrase(rng):
-    k = rng.randrange(6)
+    k = rng.randrange(8)
     n = rng.choice([1, 2, 8, 16, 40])
+    if k == 6:      # whitespace at the edges is part of the passphrase (no normalisation on either side)
+        core = ''.join(rng.choice('abcXYZ019') for _ in range(rng.choice([1, 3, 8])))
+        return rng.choice([' ' + core, core + ' ', core + '\n', '\t' + core, ' ' + core + ' ', core + '\r\n', '\u00a0' + core, core + '\u3000'])
+    if k == 7:
+        return rng.choice([' ', '  ', '\n', '\t ', ' \u00a0'])
     if k == 0:
         return ''.join(rng.choice('abcdefghijklmnopqrstuvwxyzABC0123456789 !@#') for _ in range(n))
     if k == 1:
